@@ -445,10 +445,13 @@ func rpcRefreshContract(ctx context.Context, t TransportClient, tp TxPool, signe
 		signer.ReleaseInputs([]types.V2Transaction{renewalTxn})
 		return RPCRefreshContractResult{}, clientErrf("invalid host contract signature")
 	}
+	// the host's signature was verified against the locally built contract;
+	// return that contract, not whatever the host put around the signature
+	renewal.NewContract.HostSignature = hostRenewal.NewContract.HostSignature
 	return RPCRefreshContractResult{
 		Contract: ContractRevision{
 			ID:       params.ContractID.V2RenewalID(),
-			Revision: hostRenewal.NewContract,
+			Revision: renewal.NewContract,
 		},
 		RenewalSet: TransactionSet{
 			Basis:        hostTransactionSetResp.Basis,
@@ -1311,10 +1314,13 @@ func RPCRenewContract(ctx context.Context, t TransportClient, tp TxPool, signer 
 		signer.ReleaseInputs([]types.V2Transaction{renewalTxn})
 		return RPCRenewContractResult{}, clientErrf("invalid host contract signature")
 	}
+	// the host's signature was verified against the locally built contract;
+	// return that contract, not whatever the host put around the signature
+	renewal.NewContract.HostSignature = hostRenewal.NewContract.HostSignature
 	return RPCRenewContractResult{
 		Contract: ContractRevision{
 			ID:       params.ContractID.V2RenewalID(),
-			Revision: hostRenewal.NewContract,
+			Revision: renewal.NewContract,
 		},
 		RenewalSet: TransactionSet{
 			Basis:        hostTransactionSetResp.Basis,
